@@ -62,6 +62,19 @@ def processLine (line : String) : String :=
     | "stale-ack" =>
       if nat j "answeredSuccess" != 0 then s!"PROP C04 stale-ack-answered-success-while-a-duplicate-was-in-flight count={nat j "answeredSuccess"} {tag}"
       else "ok"
+    | "pull-auth-during-reloads" =>
+      -- C18 / C11: every decision is taken entirely under X or entirely under Y; both give the same answer here
+      if nat j "otherTokenAccepted" != 0 then s!"PROP C18,C11 pull-caller-authorized-by-a-mixture-of-two-configurations count={nat j "otherTokenAccepted"} {tag}"
+      else if nat j "ownTokenRefused" != 0 then s!"PROP C18,C11 pull-caller-refused-by-a-mixture-of-two-configurations count={nat j "ownTokenRefused"} {tag}"
+      else if nat j "reloads" < 2 then s!"DIVERGE concx pull-auth-during-reloads: no reloads happened {tag}"
+      else "ok"
+    | "evict-vs-consumers" =>
+      if nat j "freshLeaseAckFailed" != 0 then s!"PROP C02,C12,C03 message-removed-while-leased-under-drop-oldest count={nat j "freshLeaseAckFailed"} {tag}"
+      else "ok"
+    | "mcp-writers" =>
+      if nat j "strangeContentSeen" != 0 || !(bool j "finalKnown") then s!"PROP C18 configuration-file-seen-neither-old-nor-new-with-concurrent-mcp-writers {tag}"
+      else if nat j "writersFailed" != 0 then s!"PROP C18 concurrent-mcp-writer-failed {tag}"
+      else "ok"
     | "reload-raise-inflight" =>
       if !(bool j "reloadOK") || nat j "first" != 202 then s!"DIVERGE concx reload-raise-inflight: scenario did not run as intended {tag}"
       else if nat j "replay" == 202 then s!"PROP C09 replay-accepted-after-a-request-served-during-a-tolerance-raising-reload {tag}"
